@@ -98,6 +98,8 @@ struct CGProgram {
 class FGen : public Gen {
 public:
   std::vector<var_t> last_lhs; // lhs of the most recently emitted call
+  std::vector<var_t> last_args;
+  unsigned last_callee = 0;
   CGProgram &cg;
   unsigned self;
   Func &f;
@@ -211,6 +213,8 @@ public:
     }
     b.callsite(cf.name, lhs, args);
     last_lhs = lhs;
+    last_args = args;
+    last_callee = c;
     pending.erase(std::remove(pending.begin(), pending.end(), c), pending.end());
     f.n_sites++;
     CallSiteInfo si;
@@ -329,6 +333,30 @@ public:
       Gen::stmt(b);
       return;
     }
+    // (tail choice) the same callee called again right away with a larger first integer actual:
+    // a second calling context that contains, or lies next to, the first one
+    {
+      unsigned rc = t.tail_u8();
+      if ((rc & 7) == 5) {
+        const var_t *a = nullptr;
+        for (auto &x : last_args)
+          if (x.get_type().is_integer() && std::find(f.loc_ints.begin(), f.loc_ints.end(), x) != f.loc_ints.end()) {
+            a = &x;
+            break;
+          }
+        if (a) {
+          var_t av = *a;
+          unsigned callee = last_callee;
+          switch ((rc >> 3) & 3) {
+          case 0: b.havoc(av); break;
+          case 1: b.havoc(av); b.assume(cst_t(lin_t(av) >= lin_t(z_number((int64_t)(rc >> 5)) - z_number(2)))); break;
+          case 2: b.add(av, av, z_number(1 + (int64_t)(rc >> 5))); break;
+          default: b.havoc(av); b.assume(cst_t(lin_t(av) <= lin_t(z_number((int64_t)(rc >> 5))))); break;
+          }
+          emit_call(b, callee, &av);
+        }
+      }
+    }
     // often an assertion right after the call (about the returned values, typically)
     if (cap(CAP_ASSERT) && t.pick(3) == 1) {
       PoolAll sw(*this);
@@ -357,6 +385,23 @@ public:
     p.labels.push_back(l);
     if (blocks_left > 0)
       blocks_left--;
+    if (p.labels.size() == 1 && self > 0 && cap(CAP_ASSERT)) {
+      // (tail choice) an assertion about an integer input, first thing in the callee: its verdict
+      // depends on the calling contexts only
+      unsigned ec = t.tail_u8();
+      if ((ec & 3) == 2)
+        for (auto &in : f.inputs)
+          if (in.get_type().is_integer()) {
+            z_number c((int64_t)((ec >> 4) & 7) - 3);
+            switch ((ec >> 2) & 3) {
+            case 0: b.assertion(cst_t(lin_t(in) <= lin_t(c)), next_dbg()); break;
+            case 1: b.assertion(cst_t(lin_t(in) >= lin_t(c)), next_dbg()); break;
+            case 2: b.assertion(cst_t(lin_t(in) != lin_t(c)), next_dbg()); break;
+            default: b.assertion(cst_t(lin_t(in) <= lin_t(c + z_number(8))), next_dbg()); break;
+            }
+            break;
+          }
+    }
     copy_in(b);
     if (with_stmts) {
       unsigned n = t.pick(o.max_stmts_per_block + 1);
